@@ -62,7 +62,8 @@ def matter_case(draw):
     vol = draw(st.one_of(st.none(), pos))    # litres
     return {"kind": kind, "natural": nat, "obj": obj, "given": given, "value": val,
             "unit1": draw(st.sampled_from(units)), "unit2": draw(st.sampled_from(units)),
-            "volume": vol, "vunit1": draw(st.sampled_from(V_U)), "vunit2": draw(st.sampled_from(V_U))}
+            "volume": vol, "vunit1": draw(st.sampled_from(V_U)), "vunit2": draw(st.sampled_from(V_U)),
+            "poke": draw(st.sampled_from([None, "convert", "add"]))}
 
 
 def strategies(tier):
@@ -206,6 +207,33 @@ def _check(case, v):
                 return v.fail("component-rho", f"{text}: rho[{k}] = {rows[k]['rho']!r}, expected {a * masses[k] * DA_G * n!r}")
             if V is not None and not close(rows[k]["N"], a * n * V, 1e-9):
                 return v.fail("component-N", f"{text}: N[{k}] = {rows[k]['N']!r}, expected {a * n * V!r}")
+    # the object's own density quantities converted in place (or an addition with it as left operand) must not
+    # change what the matter table reports
+    try:
+        if case.get("poke") == "convert":
+            obj.number_density.to("m-3")
+            obj.mass_density.to("kg/m3")
+            if obj.volume is not None:
+                obj.volume.to("m3")
+        elif case.get("poke") == "add" and case["kind"] in ("material", "substance"):
+            from scinumtools.materials import Material, Substance
+            other = Material({"Zn": 0.5, "H2O": 1.0}, natural=case["natural"]) if case["kind"] == "material" else Substance("ZnO", natural=case["natural"])
+            _sum = obj + other
+        if case.get("poke"):
+            again = read(obj, case)
+            for key in ("rho", "n", "mass"):
+                a, b = got[key], again[key]
+                if (a is None) != (b is None) or (a is not None and not close(a, b, 1e-9)):
+                    return v.fail("poke", f"{text}: {key} = {a!r} before and {b!r} after poke={case['poke']}")
+            for k in rows:
+                for c in rows[k]:
+                    if k not in again["rows"] or not close(rows[k][c], again["rows"][k][c], 1e-9):
+                        return v.fail("poke", f"{text}: {c}[{k}] = {rows[k][c]!r} before and "
+                                              f"{again['rows'].get(k, {}).get(c)!r} after poke={case['poke']}")
+            if sorted(again["rows"]) != sorted(rows):
+                return v.fail("poke", f"{text}: components {sorted(rows)} became {sorted(again['rows'])} after poke={case['poke']}")
+    except Exception as e:
+        return v.fail("matter-raised", f"{text}: poke={case.get('poke')} raised {e!r}")
     # unit independence
     try:
         obj2, _a, _m = build(case, 2)
